@@ -10,6 +10,7 @@ type ChainSpec struct {
 	DeltaMs []int64  `json:"delta_ms"`        // per-header time delta, cycled; default 1000
 	Spans   []uint64 `json:"spans,omitempty"` // per-header trust span, cycled; default 1<<40
 	Salt    uint32   `json:"salt,omitempty"`
+	Flags   uint8    `json:"flags,omitempty"` // set on every header of the chain
 }
 
 // Chain is a built canonical chain. Headers[i] has height i+1.
@@ -43,7 +44,7 @@ func (s ChainSpec) Build() *Chain {
 func (c *Chain) Extend(n int) {
 	s := c.Spec
 	for i := len(c.Headers); i < n; i++ {
-		h := &Header{Chain: s.ChainID, H: uint64(i + 1), Span: s.span(i), Salt: s.Salt}
+		h := &Header{Chain: s.ChainID, H: uint64(i + 1), Span: s.span(i), Salt: s.Salt, Flags: s.Flags}
 		if i == 0 {
 			h.T = Epoch.UnixNano() + s.StartMs*int64(time.Millisecond)
 			h.Prev = []byte("genesis")
